@@ -562,3 +562,71 @@ func (d *DB) SortedTableNames() []string {
 	sort.Strings(n)
 	return n
 }
+
+// RowOps is the number of row operations statement s performs in the current
+// state: rows of an INSERT, matching rows of an UPDATE or DELETE.
+func (d *DB) RowOps(s Stmt) (int, error) {
+	switch s.Kind {
+	case "insert":
+		return len(s.Rows), nil
+	case "update", "delete":
+		t, ok := d.Tables[s.Table]
+		if !ok {
+			return 0, fmt.Errorf("model: no table %s", s.Table)
+		}
+		m, err := t.Matches(s.Where)
+		return len(m), err
+	}
+	return 0, nil
+}
+
+// ApplyPrefix applies only the first r row operations of s, in the order the
+// statement applies them (INSERT: listed order; UPDATE/DELETE: table order).
+func (d *DB) ApplyPrefix(s Stmt, r int) error {
+	switch s.Kind {
+	case "insert":
+		p := s
+		p.Rows = s.Rows[:r]
+		if len(p.Rows) == 0 {
+			return nil
+		}
+		k, err := d.Apply(p)
+		if err != nil || k != OK {
+			return fmt.Errorf("model: prefix not applicable: %v %v", k, err)
+		}
+		return nil
+	case "update", "delete":
+		t := d.Tables[s.Table]
+		matches, err := t.Matches(s.Where)
+		if err != nil {
+			return err
+		}
+		if r > len(matches) {
+			return fmt.Errorf("model: prefix %d exceeds %d matches", r, len(matches))
+		}
+		sel := map[*Row]bool{}
+		for _, m := range matches[:r] {
+			sel[m] = true
+		}
+		if s.Kind == "delete" {
+			var keep []*Row
+			for _, row := range t.Rows {
+				if !sel[row] {
+					keep = append(keep, row)
+				}
+			}
+			t.Rows = keep
+			return nil
+		}
+		for _, row := range t.Rows {
+			if !sel[row] {
+				continue
+			}
+			for _, a := range s.Set {
+				row.Vals[t.ColIdx(a.Col)] = a.Val.Go()
+			}
+		}
+		return nil
+	}
+	return fmt.Errorf("model: no prefix semantics for %s", s.Kind)
+}
